@@ -28,6 +28,8 @@ type BoxFut = futures::future::BoxFuture<'static, ()>;
 
 struct Task {
   fut: Mutex<Option<BoxFut>>,
+  /// woken while another worker was polling it: that worker re-queues it
+  notified: AtomicBool,
   q: Arc<Pool>,
 }
 pub struct Pool {
@@ -49,7 +51,7 @@ impl Pool {
     VerifSchedulerThreads(Arc::new(move |f| {
       p.live.fetch_add(1, Ordering::SeqCst);
       p.spawned.fetch_add(1, Ordering::SeqCst);
-      let t = Arc::new(Task { fut: Mutex::new(Some(f)), q: p.clone() });
+      let t = Arc::new(Task { fut: Mutex::new(Some(f)), notified: AtomicBool::new(false), q: p.clone() });
       p.ready.lock().unwrap_or_else(|e| e.into_inner()).push_back(t);
     }))
   }
@@ -63,7 +65,14 @@ impl Pool {
       let i = pick % q.len();
       q.remove(i).unwrap()
     };
-    let fut = t.fut.lock().unwrap_or_else(|e| e.into_inner()).take();
+    let fut = {
+      let mut g = t.fut.lock().unwrap_or_else(|e| e.into_inner());
+      if g.is_none() {
+        // being polled by another worker right now (or finished): leave a note
+        t.notified.store(true, Ordering::SeqCst);
+      }
+      g.take()
+    };
     if let Some(mut f) = fut {
       let w = waker(t.clone());
       let mut cx = Context::from_waker(&w);
@@ -73,6 +82,9 @@ impl Pool {
         }
         Poll::Pending => {
           *t.fut.lock().unwrap_or_else(|e| e.into_inner()) = Some(f);
+          if t.notified.swap(false, Ordering::SeqCst) {
+            self.ready.lock().unwrap_or_else(|e| e.into_inner()).push_back(t.clone());
+          }
         }
       }
     }
@@ -132,6 +144,10 @@ pub struct Outcome {
   pub overlaps: Vec<(u32, u32, u32)>,
   pub peek_at_end: Option<V>,
   pub spawned_tasks: usize,
+  /// scheduled tasks not yet finished / virtual timers still registered when
+  /// everything had run until idle (scenarios with workers only)
+  pub live_tasks: usize,
+  pub pending_timers: usize,
 }
 
 const CALL: u32 = 2000;
@@ -287,7 +303,7 @@ pub fn run_scen(s: &Scen, seed: u64, strategy: Strategy) -> Outcome {
     });
   }
   let peek_at_end = if s.kind == Kind::Behavior && baton.deadlock.is_none() && !baton.timed_out { Some(Behavior::<V, E>::peek(&beh)) } else { None };
-  let out = Outcome { baton, evs: log.evs(), overlaps: log.overlaps(), peek_at_end, spawned_tasks: pool.spawned.load(Ordering::SeqCst) };
+  let out = Outcome { baton, evs: log.evs(), overlaps: log.overlaps(), peek_at_end, spawned_tasks: pool.spawned.load(Ordering::SeqCst), live_tasks: pool.live.load(Ordering::SeqCst), pending_timers: crate::vtime::pending_count() };
   // leak what the scenario built: if the run was abandoned (deadlock) its
   // cells may still be locked by parked threads
   std::mem::forget(subs);
@@ -512,6 +528,30 @@ pub fn moved_oracle(o: &Outcome, s: &Scen) -> Option<(String, serde_json::Value)
         }
       }
     }
+  }
+  None
+}
+
+/// C08 / C16 (thread part): interval(p).take(k) ticking on worker threads
+pub fn interval_oracle(o: &Outcome, s: &Scen) -> Option<(String, serde_json::Value)> {
+  let out = notes(&o.evs, 1);
+  let items: Vec<i64> = out.iter().filter_map(|n| if let N::Next(v) = n { Some(v.int()) } else { None }).collect();
+  let k = match &s.kind {
+    Kind::Pipe(c) => c.ops.iter().find_map(|op| if let Op::Take(k) = op { Some(*k) } else { None }).unwrap_or(0),
+    _ => 0,
+  };
+  let show = |why: String| json!({"why": why, "delivered": jn(&out), "live_tasks": o.live_tasks, "pending_timers": o.pending_timers});
+  if items.iter().enumerate().any(|(i, v)| *v != i as i64) {
+    return Some(("wrong_values".into(), show("interval must emit 0,1,2,... in order, each once".into())));
+  }
+  let unsub = o.evs.iter().any(|e| matches!(e.k, K::Mark("unsub_call", _)));
+  if !unsub && (items.len() != k || out.last() != Some(&N::Complete)) {
+    return Some(("wrong_values".into(), show(format!("take({}) over a ticking interval must deliver {} values and complete once the workers ran until idle", k, k))));
+  }
+  // the stream ended (take satisfied or unsubscribed) and everything ran until
+  // idle: the periodic task must be gone (run-until-idle terminates)
+  if o.live_tasks > 0 || o.pending_timers > 0 {
+    return Some(("producer_not_retired".into(), show("the periodic task or its timer is still alive after the stream ended and the scheduler ran until idle".into())));
   }
   None
 }
@@ -847,6 +887,21 @@ pub fn random_scen(r: &mut Rng, family: usize) -> Scen {
         worker_spins: 20_000,
       }
     }
+    23 => {
+      // a time source ticking on a worker thread: interval(1ms).take(k), the
+      // worker fires the virtual timers; optionally another thread unsubscribes
+      let k = 1 + r.below(4);
+      let threads = vec![if r.chance(1, 2) { vec![TOp::Unsub(0)] } else { vec![] }];
+      Scen {
+        name: "interval+workers",
+        kind: Kind::Pipe(Chain::new(Src::Interval(1), vec![Op::Take(k)])),
+        n_hot: 1,
+        initial_subs: 1,
+        threads,
+        workers: 1 + r.below(2),
+        worker_spins: 400,
+      }
+    }
     21 | 22 => {
       // one producer thread, one FIFO worker thread (a single-threaded pool on
       // its own thread): the scheduler-moving operators must keep the order
@@ -894,7 +949,7 @@ pub fn random_scen(r: &mut Rng, family: usize) -> Scen {
   }
 }
 
-pub const FAMILIES: usize = 23;
+pub const FAMILIES: usize = 24;
 
 pub fn strategy_for(r: &mut Rng) -> Strategy {
   match r.below(4) {
@@ -1248,7 +1303,7 @@ pub fn run_scen_free_mode(s: &Scen, mode: u8, seed: u64) -> Outcome {
   }
   let panics: Vec<(usize, String)> = vec![];
   let baton = BatonOutcome { panics, finished: vec![!timed_out; s.threads.len()], timed_out, ..Default::default() };
-  let out = Outcome { baton, evs: log.evs(), overlaps: log.overlaps(), peek_at_end: None, spawned_tasks: 0 };
+  let out = Outcome { baton, evs: log.evs(), overlaps: log.overlaps(), peek_at_end: None, spawned_tasks: 0, live_tasks: pool.live.load(Ordering::SeqCst), pending_timers: crate::vtime::pending_count() };
   if timed_out {
     std::mem::forget(subs);
     std::mem::forget(cx);
